@@ -37,6 +37,36 @@ class ForgotClassMethod(SubclassJSONSerializer):
         return cls()
 
 
+class StaticWithClassParameter(SubclassJSONSerializer):
+    """the wrong decorator: a static method written with a class parameter cannot take the document"""
+
+    @staticmethod
+    def _from_json(cls, data, **kwargs):
+        return cls()
+
+
+class _EqMeta(type):
+    def __eq__(cls, other):
+        return cls is other
+
+
+class Unhashable(metaclass=_EqMeta):
+    """a class that cannot be hashed (its metaclass defines __eq__ without __hash__)"""
+
+
+class _Settings:
+    """an object that answers every attribute access from a dict: a missing key is a KeyError"""
+
+    def __getattr__(self, name):
+        raise KeyError(name)
+
+    def __repr__(self):
+        raise KeyError("__repr__")
+
+
+SETTINGS = _Settings()
+
+
 class PlainFunctionFromJson(SubclassJSONSerializer):
     """_from_json written without a decorator and without a class parameter: called on the class it works like a static method"""
 
